@@ -13,7 +13,6 @@ import (
 	"encoding/json"
 	"fmt"
 	"io"
-	"net"
 	"os"
 	"os/exec"
 	"path/filepath"
@@ -22,6 +21,7 @@ import (
 	"sync"
 	"syscall"
 	"time"
+	"verifharness/internal/hx"
 
 	pb "github.com/marekgalovic/anndb/protobuf"
 	uuid "github.com/satori/go.uuid"
@@ -83,26 +83,7 @@ func (s *safeBuf) tail() string {
 
 var bin, work string
 
-// freePort: several drivers run in parallel; asking the kernel for a free port and closing it again lets two of
-// them pick the same one.  Every driver process takes its ports from its own block below the ephemeral range.
-var portSeq int
-
-func freePort() string {
-	for try := 0; try < 400; try++ {
-		portSeq++
-		port := 5000 + (os.Getpid()%250)*100 + portSeq%100
-		l, err := net.Listen("tcp", fmt.Sprintf(":%d", port))
-		if err != nil {
-			continue
-		}
-		l.Close()
-		return fmt.Sprint(port)
-	}
-	l, _ := net.Listen("tcp", "127.0.0.1:0")
-	defer l.Close()
-	_, p, _ := net.SplitHostPort(l.Addr().String())
-	return p
-}
+func freePort() string { return hx.FreePort() }
 
 func (p *proc) start(env ...string) bool {
 	args := []string{"-port", p.port, "-data-dir", p.dir, "-node-id", fmt.Sprint(p.id)}
@@ -590,6 +571,7 @@ func del(p *proc, id string) {
 }
 
 func main() {
+	defer hx.ReleasePorts()
 	bin, work = os.Args[1], os.Args[2]
 	f, _ := os.Create(os.Args[3])
 	defer f.Close()
